@@ -12,7 +12,7 @@ def count(pat, files):
 model = glob.glob(os.path.join(V, "lean/AdfModel/*.lean"))
 props = sorted(glob.glob(os.path.join(V, "lean/AdfProps/*.lean")))
 proofs = glob.glob(os.path.join(V, "lean/AdfProofs/*.lean"))
-FOUND_BY_CHECKS = {'5b0bd90','4b0adf0','0fddb8f','c06b32e','1e9dfbe','8a8eebf','61108fd','e5b4bec','adde754','3a1aaaa','5a2184e','2cb5c61','85d84d5','5ae3d82','1d2557b','807c653','ab7051b','cda3818','0ad6edc','643b492','ae7ff2e','c4c77ee','7f14755','cdef45e','189b077'}
+FOUND_BY_CHECKS = {'5b0bd90','4b0adf0','0fddb8f','c06b32e','1e9dfbe','8a8eebf','61108fd','e5b4bec','adde754','3a1aaaa','5a2184e','2cb5c61','85d84d5','5ae3d82','1d2557b','807c653','ab7051b','cda3818','0ad6edc','643b492','ae7ff2e','c4c77ee','7f14755','cdef45e','189b077','bc7ef15'}
 fixes = []
 for f in reversed(kf["fixed"]):
     subj = f.get("subject")
